@@ -1,4 +1,8 @@
+mod c03;
+mod c05;
+mod c20;
 mod smoke;
+mod typed;
 
 fn main() {
     let args: Vec<String> = std::env::args().skip(1).collect();
@@ -7,12 +11,16 @@ fn main() {
         std::process::exit(2);
     };
     let ctx = vlib::report::parse_args(&id, &args[1..]);
-    let code = match id.as_str() {
-        "smoke" => smoke::run(&ctx),
+    vlib::runner::install_panic_hook();
+    let out = match id.as_str() {
+        "smoke" => std::process::exit(smoke::run(&ctx)),
+        "C03" => c03::run(&ctx),
+        "C05" => c05::run(&ctx),
+        "C20" => c20::run(&ctx),
         _ => {
             eprintln!("MACHINERY: unknown check {id}");
-            2
+            std::process::exit(2);
         }
     };
-    std::process::exit(code);
+    std::process::exit(vlib::report::finish(&ctx, out));
 }
